@@ -122,3 +122,71 @@ Proof.
   - now apply negb_true_iff.
 Qed.
 Print Assumptions C18_handle_Default_builds_the_character_event.
+
+(* ---- end to end through the C API: in English mode, editing state, empty pre-edit buffer, on every keyboard that
+   does not remap keys, chewing_handle_Default(ch) for every printable ASCII ch commits exactly ch (half-width
+   form) or exactly its one full-width image (full-width form): chewing_commit_Check = 1, the commit string is
+   that one character, the buffer stays empty, the mode flags are as before ---- *)
+From LC Require Import Model.EditorRun Model.CapiConfig Model.CapiRun Proofs.EditorFrames Proofs.CapiKeysProofs Proofs.CapiInv.
+
+Theorem C18_handle_Default_commits_the_character_in_English_mode : forall conv ss0 (c : cctx) ch,
+  CInv ss0 c -> cx_kb c <> kb_DvorakOnQwerty -> (32 <= ch <= 126)%N ->
+  st (cx_ed c) = Entering -> chewing_buffer_Len c = 0%Z ->
+  o_english (opts (sh (cx_ed c))) = true ->
+  exists c', cstep conv c (CDefault (Z.of_N ch)) = Ok c' /\
+    opts (sh (cx_ed c')) = opts (sh (cx_ed c)) /\ chewing_buffer_Len c' = 0%Z /\
+    (if o_fullwidth (opts (sh (cx_ed c)))
+     then exists fw, full_width_symbol_input ch = Some fw /\ c_commit_string c' = [fw] /\ chewing_commit_Check c' = 1%Z
+     else c_commit_string c' = [ch] /\ chewing_commit_Check c' = 1%Z).
+Proof.
+  intros conv ss0 c ch Hc Hkb Hch Hst Hlen Hen. pose proof Hc as [[[W _ _ _] _] Hk].
+  destruct (C18_handle_Default_builds_the_character_event (cx_kb c) ch Hk Hkb Hch) as (ev & Hev & Hcode & Huni & Hctrl & Hcaps & Hnum & Hsp).
+  cbn [cstep]. unfold handle_default.
+  assert (Hsel : is_selecting_b (cx_ed c) = false) by (unfold is_selecting_b; now rewrite Hst). rewrite Hsel.
+  assert (Hu8 : u8_of (Z.of_N ch) = ch). { unfold u8_of. rewrite Z.mod_small by lia. apply N2Z.id. } rewrite Hu8, Hev.
+  unfold press, ml_key, process_keyevent. rewrite Hst.
+  set (s0 := set_notice (set_lifetime (sh (cx_ed c)) (lifetime (sh (cx_ed c)) + 1)%N) []).
+  set (s1 := set_commit s0 []).
+  assert (Ho : opts s1 = opts (sh (cx_ed c))) by reflexivity.
+  assert (Hcom : com s1 = com (sh (cx_ed c))) by reflexivity.
+  assert (He : ce_is_empty (com s1) = true).
+  { rewrite Hcom. unfold chewing_buffer_Len, flag, c_flags in Hlen. cbn [List.nth] in Hlen. unfold ce_is_empty. apply Nat.eqb_eq. lia. }
+  rewrite (C18_english_key _ _ mdf_ops lay_ops conv s1 (of_key_event ev) Hcode Hctrl Hcaps Hnum).
+  2: { rewrite Hsp. reflexivity. }
+  2: { now rewrite Ho. }
+  rewrite Ho, Huni. unfold commit_or_insert. rewrite He.
+  destruct (o_fullwidth (opts (sh (cx_ed c)))) eqn:Efw; cbn [negb].
+  - (* full-width form: every printable ASCII character has an image *)
+    destruct (C18_fullwidth_total ch) as (fw & Hfw & _).
+    { unfold printable. apply andb_true_iff. split; apply N.leb_le; lia. }
+    rewrite Hfw. cbn [obind fst snd apply_transition is_entering last set_last behavior_eqb andb].
+    eexists. split; [reflexivity|]. cbn [fst cx_ed with_ed sh].
+    unfold chewing_buffer_Len, chewing_commit_Check, c_commit_string, flag, c_flags. cbn [List.nth cx_ed with_ed sh].
+    unfold flush_dirty. destruct (N.ltb 0 _); cbn; (split; [reflexivity|]; split; [exact Hlen|]; exists fw; auto).
+  - cbn [obind fst snd apply_transition is_entering last set_last behavior_eqb andb].
+    eexists. split; [reflexivity|]. cbn [fst cx_ed with_ed sh].
+    unfold chewing_buffer_Len, chewing_commit_Check, c_commit_string, flag, c_flags. cbn [List.nth cx_ed with_ed sh].
+    unfold flush_dirty. destruct (N.ltb 0 _); cbn; (split; [reflexivity|]; split; [exact Hlen|]; auto).
+Qed.
+Print Assumptions C18_handle_Default_commits_the_character_in_English_mode.
+
+(* non-vacuity: a fresh context switched to English mode (and to the Hsu keyboard type) meets the hypotheses *)
+From LC Require Import Proofs.EdInstProofs Proofs.EngineTiles.
+Definition c18_history : list cop := [CConfigSetInt (Config.iopt_name Config.OLanguageMode) 0; CSetKBType 1]%Z.
+Example C18_english_context_example :
+  exists c, crun mf_conv (cx_init (mkMD [] [] []) [] ss_empty 0%N) c18_history = Ok c /\
+            CInv ss_empty c /\ cx_kb c <> kb_DvorakOnQwerty /\ st (cx_ed c) = Entering /\ chewing_buffer_Len c = 0%Z /\
+            o_english (opts (sh (cx_ed c))) = true.
+Proof.
+  assert (R : exists c, crun mf_conv (cx_init (mkMD [] [] []) [] ss_empty 0%N) c18_history = Ok c /\
+              N.eqb (cx_kb c) kb_DvorakOnQwerty = false /\ st (cx_ed c) = Entering /\ chewing_buffer_Len c = 0%Z /\
+              o_english (opts (sh (cx_ed c))) = true).
+  { vm_compute. eexists. repeat split. }
+  destruct R as (c & Hrun & Hkb & Hst & Hlen & Hen). exists c. split; [exact Hrun|]. split.
+  - assert (Hg : ss_good ss_empty) by (split; intros name; [intros [] | intros idx []]).
+    assert (Hf : ss_cursor ss_empty = None) by reflexivity.
+    assert (Hd : md_fine (mkMD [] [] [])) by (split; constructor).
+    assert (Hops : Forall cop_fine c18_history) by (repeat constructor).
+    exact (crun_inv mf_conv mf_conv_tiles ss_empty Hg Hf c18_history _ c Hops (cx_init_inv ss_empty _ [] 0%N Hg Hf Hd) Hrun).
+  - repeat split; try assumption. intros E. rewrite E in Hkb. discriminate.
+Qed.
